@@ -14,7 +14,11 @@ from harness import core, gen_npz
 from harness.core import Prop, outcome
 
 BUILTIN = ["Equal", "x", "1/x", "1/(x^2)", "y", "1/y", "1/(y^2)"]
-DTYPES = ["<f8", "<f8", "<f8", "<f4", "<f2", "<i8", "<i4", "<i2", "<i1", "<u8", "<u4", "<u2", "<u1", ">f8", ">i4"]
+DTYPES = ["<f8", "<f8", "<f8", "<f4", "<f2", "<i8", "<i4", "<i2", "<i1", "<u8", "<u4", "<u2", "<u1", ">f8", ">i4",
+          ">f4", ">i2", ">u2", ">i8", ">u4", ">f2"]
+# memory layouts of the structured image handed to Laser(): C order, Fortran order, a strided view into a larger
+# array, a view with negative strides (values and dtypes are the same; only the bytes in memory differ)
+LAYOUTS = ["C", "C", "C", "F", "strided", "reversed"]
 
 # ----------------------------------------------------------------------------- encodings
 
@@ -110,9 +114,19 @@ def uint_dtype(dt: np.dtype) -> np.dtype:
     return np.dtype(dt.byteorder.replace("=", "<").replace("|", "<") + "u" + str(dt.itemsize)) if dt.itemsize > 1 else np.dtype("u1")
 
 
-def build_layer(elements, shape, li):
+def build_layer(elements, shape, li, layout="C"):
     dt = np.dtype([(e["name"], e["dtype"]) for e in elements])
-    arr = np.zeros(tuple(shape), dtype=dt)
+    shape = tuple(shape)
+    if layout == "F":
+        arr = np.zeros(shape, dtype=dt, order="F")
+    elif layout == "strided" and len(shape) == 2:
+        arr = np.zeros((2 * shape[0] + 1, 3 * shape[1] + 2), dtype=dt)[1::2, 2::3][: shape[0], : shape[1]]
+    elif layout == "reversed" and len(shape) == 2:
+        arr = np.zeros(shape, dtype=dt)[::-1, ::-1]
+    else:
+        arr = np.zeros(shape, dtype=dt)
+    if arr.shape != shape:
+        raise core.InternalError("layout view has the wrong shape")
     for e in elements:
         fdt = np.dtype(e["dtype"])
         raw = np.array(e["bits"][li], dtype=uint_dtype(fdt)).view(fdt).reshape(shape)
@@ -156,10 +170,187 @@ def build_laser(case):
     cal = {els[i]["name"]: build_cal(c) for i, c in case["cals"]}
     info = {k: v for k, v in case["info"]}
     config = build_config(case["config"])
+    lay = case.get("layout", "C")
     if case["cls"] == "srr":
-        layers = [build_layer(els, sh, li) for li, sh in enumerate(case["shapes"])]
+        layers = [build_layer(els, sh, li, lay) for li, sh in enumerate(case["shapes"])]
         return SRRLaser(layers, calibration=cal, config=config, info=info)
-    return Laser(build_layer(els, case["shapes"][0], 0), calibration=cal, config=config, info=info)
+    return Laser(build_layer(els, case["shapes"][0], 0, lay), calibration=cal, config=config, info=info)
+
+
+# ----------------------------------------------------------------------------- operations on the real object
+
+
+def apply_op_real(obj, op):
+    """one call of a public mutator (or one assignment to a public attribute) on the pewlib object"""
+    k = op["op"]
+    if k == "cal_set":
+        obj.calibration[op["key"]] = build_cal(op["cal"])
+    elif k == "cal_pop":
+        obj.calibration.pop(op["key"])
+    elif k == "cal_move_end":
+        c = obj.calibration.pop(op["key"])
+        obj.calibration[op["key"]] = c
+    elif k == "cal_reorder":
+        obj.calibration = {n: obj.calibration[n] for n in op["order"]}
+    elif k == "cal_edit":
+        c = obj.calibration[op["key"]]
+        e = op["edit"]
+        w = e["what"]
+        if w in ("intercept", "gradient"):
+            setattr(c, w, tokf(e["value"]))
+        elif w == "unit":
+            c.unit = e["value"]
+        elif w in ("rsq", "error"):
+            setattr(c, w, None if e["value"] is None else tokf(e["value"]))
+        elif w == "points":
+            c.points = np.array([[tokf(a), tokf(b)] for a, b in e["value"]], dtype=np.float64).reshape(-1, 2)
+        elif w == "weighting":
+            c.weights = e["value"]
+        elif w == "custom":
+            c.weights = (e["name"], np.array([tokf(t) for t in e["value"]], dtype=np.float64))
+        else:
+            raise core.InternalError("bad calibration edit " + w)
+    elif k == "info_set":
+        obj.info[op["key"]] = op["value"]
+    elif k == "info_pop":
+        obj.info.pop(op["key"])
+    elif k == "info_assign":
+        obj.info = {a: b for a, b in op["items"]}
+    elif k == "cfg":
+        w = op["what"]
+        if w in ("spotsize", "speed", "scantime", "spotsize_y"):
+            if not hasattr(obj.config, w):
+                raise AttributeError(w)
+            setattr(obj.config, w, tokf(op["value"]))
+        elif w == "warmup":
+            obj.config.warmup = tokf(op["value"])
+        elif w == "offsets":
+            obj.config.subpixel_offsets = np.array([tuple(o) for o in op["value"]]) if op.get("as_array") else [tuple(o) for o in op["value"]]
+        elif w == "equal_offsets":
+            obj.config.set_equal_subpixel_offsets(int(op["value"]))
+        else:
+            raise core.InternalError("bad config operation " + w)
+    elif k == "cfg_assign":
+        obj.config = build_config(op["config"])
+    elif k == "rename":
+        obj.rename({a: b for a, b in op["names"]})
+    elif k == "add":
+        fdt = np.dtype(op["dtype"])
+        layers = list(obj.data) if type(obj).__name__ == "SRRLaser" else [obj.data]
+        arrs = [np.array(b, dtype=uint_dtype(fdt)).view(fdt).reshape(l.shape) for b, l in zip(op["bits"], layers)]
+        cal = None if op["cal"] is None else build_cal(op["cal"])
+        obj.add(op["name"], arrs if type(obj).__name__ == "SRRLaser" else arrs[0], calibration=cal)
+    elif k == "remove":
+        obj.remove(op["names"][0] if op.get("as_str") and len(op["names"]) == 1 else list(op["names"]))
+    elif k == "data_reorder":
+        def reorder(a):
+            new = np.empty(a.shape, dtype=[(n, a.dtype[n]) for n in op["order"]])
+            for n in op["order"]:
+                new[n] = a[n]
+            return new
+        if type(obj).__name__ == "SRRLaser":
+            obj.data = [reorder(a) for a in obj.data]
+        else:
+            obj.data = reorder(obj.data)
+    else:
+        raise core.InternalError("bad operation " + k)
+
+
+def read_real(obj, what):
+    """read-only accesses between two saves (they must not change what the next save writes)"""
+    with warnings.catch_warnings():
+        warnings.simplefilter("ignore")
+        try:
+            if what == "to_array":
+                obj.config.to_array()
+                for c in obj.calibration.values():
+                    c.to_array()
+            elif what == "offsets":
+                getattr(obj.config, "subpixel_offsets", None)
+                getattr(obj.config, "warmup", None)
+            elif what == "extent":
+                obj.extent  # noqa: B018
+                obj.config.get_pixel_width(), obj.config.get_pixel_height()
+            elif what == "get":
+                obj.get(obj.elements[0], calibrate=True)
+                obj.get()
+            elif what == "weights":
+                for c in obj.calibration.values():
+                    c.weights  # noqa: B018
+                    str(c)
+        except Exception:  # noqa: BLE001  a read that fails (e.g. extent of an odd SRR config) is of no concern here
+            pass
+
+
+def tkn(t):
+    return [1 if math.isnan(tokf(t)) else 0, t]
+
+
+def enc_cal(c):
+    """a calibration of the case (constructor arguments) as the model's `Cal`"""
+    custom = not isinstance(c["weights"], str)
+    return {"intercept": tkn(c["intercept"]), "gradient": tkn(c["gradient"]), "unit": cps(c["unit"]),
+            "rsq": None if c["rsq"] is None else tkn(c["rsq"]), "error": None if c["error"] is None else tkn(c["error"]),
+            "points": [[tkn(a), tkn(b)] for a, b in c["points"]],
+            "weighting": cps(c["weights"]["name"] if custom else c["weights"]),
+            "weights": [tkn(v) for v in c["weights"]["values"]] if custom else []}
+
+
+def enc_cfg_args(c):
+    if c["class"] == "raster":
+        return {"class": "raster", "spotsize": tkn(c["spotsize"]), "speed": tkn(c["speed"]), "scantime": tkn(c["scantime"])}
+    if c["class"] == "spot":
+        return {"class": "spot", "spotsize": tkn(c["spotsize"]), "spotsize_y": tkn(c["spotsize_y"])}
+    return {"class": "srr", "spotsize": tkn(c["spotsize"]), "speed": tkn(c["speed"]), "scantime": core.rat(tokf(c["scantime"])),
+            "warmup": core.rat(tokf(c["warmup"])), "offsets": [[int(a), int(b)] for a, b in c["offsets"]]}
+
+
+def enc_op(op):
+    """an operation of the case in the driver's encoding (strings as code points, floats as tokens / exact rationals)"""
+    k = op["op"]
+    if k == "cal_set":
+        return {"op": k, "key": cps(op["key"]), "cal": enc_cal(op["cal"])}
+    if k in ("cal_pop", "cal_move_end", "info_pop"):
+        return {"op": k, "key": cps(op["key"])}
+    if k in ("cal_reorder", "data_reorder"):
+        return {"op": k, "order": [cps(n) for n in op["order"]]}
+    if k == "cal_edit":
+        e = op["edit"]
+        w = e["what"]
+        if w in ("intercept", "gradient"):
+            ed = {"what": w, "value": tkn(e["value"])}
+        elif w in ("unit", "weighting"):
+            ed = {"what": w, "value": cps(e["value"])}
+        elif w in ("rsq", "error"):
+            ed = {"what": w, "value": None if e["value"] is None else tkn(e["value"])}
+        elif w == "points":
+            ed = {"what": w, "value": [[tkn(a), tkn(b)] for a, b in e["value"]]}
+        else:
+            ed = {"what": "custom", "name": cps(e["name"]), "value": [tkn(t) for t in e["value"]]}
+        return {"op": k, "key": cps(op["key"]), "edit": ed}
+    if k == "info_set":
+        return {"op": k, "key": cps(op["key"]), "value": cps(op["value"])}
+    if k == "info_assign":
+        return {"op": k, "items": [[cps(a), cps(b)] for a, b in op["items"]]}
+    if k == "cfg":
+        w = op["what"]
+        if w in ("spotsize", "speed", "scantime", "spotsize_y"):
+            return {"op": k, "what": w, "value": tkn(op["value"])}
+        if w == "warmup":
+            return {"op": k, "what": w, "value": core.rat(tokf(op["value"]))}
+        if w == "offsets":
+            return {"op": k, "what": w, "value": [[int(a), int(b)] for a, b in op["value"]]}
+        return {"op": k, "what": w, "value": int(op["value"])}
+    if k == "cfg_assign":
+        return {"op": k, "config": enc_cfg_args(op["config"])}
+    if k == "rename":
+        return {"op": k, "names": [[cps(a), cps(b)] for a, b in op["names"]]}
+    if k == "add":
+        return {"op": k, "name": cps(op["name"]), "dtype": cps(np.dtype(op["dtype"]).str), "vals": op["bits"],
+                "cal": None if op["cal"] is None else enc_cal(op["cal"])}
+    if k == "remove":
+        return {"op": k, "names": [cps(n) for n in op["names"]]}
+    raise core.InternalError("bad operation " + k)
 
 
 # ----------------------------------------------------------------------------- canonical descriptions
@@ -191,7 +382,8 @@ def desc_config(cfg):
     if name == "SRRConfig":
         return {"class": "srr", "spotsize": ftok(cfg.spotsize), "speed": ftok(cfg.speed),
                 "scantime": core.rat(float(cfg.scantime)), "warmup_n": int(cfg._warmup),
-                "sub_size": int(cfg._subpixel_size), "sub_offsets": [int(o) for o in np.asarray(cfg._subpixel_offsets).tolist()]}
+                "sub_size": int(cfg._subpixel_size), "sub_offsets": [int(o) for o in np.asarray(cfg._subpixel_offsets).tolist()],
+                "offsets_public": [[int(a), int(b)] for a, b in np.asarray(cfg.subpixel_offsets).reshape(-1, 2).tolist()]}
     return {"class": name}
 
 
@@ -471,6 +663,247 @@ class C01(Prop):
         return {"class": "srr", "spotsize": core.tok(rnd_pos_float(rng)), "speed": core.tok(rnd_pos_float(rng)),
                 "scantime": core.tok(scantime), "warmup": core.tok(warmup), "offsets": offsets}
 
+    # ------------------------------------------------------------------ operations between saves
+    def distinct_cals(self, rng, case):
+        """every element gets a calibration of its own and no two calibrations are equal: a calibration that lands on
+        another element is then always visible"""
+        have = {i for i, _ in case["cals"]}
+        cals = list(case["cals"])
+        empty = bool(cals) and all(len(c["points"]) == 0 for _, c in cals)
+        for i in range(len(case["elements"])):
+            if i not in have:
+                cals.append([i, self.gen_empty_cal(rng, rng.random() < 0.5) if empty else self.gen_cal(rng)])
+        seen = []
+        out = []
+        for i, c in cals:
+            while any(core.canon(c) == core.canon(d) for d in seen):
+                c = {**c, "intercept": rnd_float_tok(rng)}
+            seen.append(c)
+            out.append([i, c])
+        case["cals"] = out
+
+    def track(self, case):
+        """what the generator needs to know of the object to produce calls that are valid: element names in data
+        order, keys of the calibration dict in dict order, number of points and kind of weighting per key, info keys,
+        class and scan time of the configuration"""
+        names = [e["name"] for e in case["elements"]]
+        given = {names[i]: c for i, c in case["cals"]}
+        return {"names": list(names), "calkeys": list(names),
+                "npoints": {n: len(given[n]["points"]) if n in given else 0 for n in names},
+                "custom": {n: (n in given and not isinstance(given[n]["weights"], str)) for n in names},
+                "info": list(dict.fromkeys(k for k, _ in case["info"])), "cfg": case["config"]["class"],
+                "scantime": tokf(case["config"]["scantime"]) if case["config"]["class"] == "srr" else None,
+                "nlayers": len(case["shapes"]), "size": case["shapes"][0][0] * case["shapes"][0][1]}
+
+    def gen_order_ops(self, rng, st):
+        """operations after which the calibration dict lists the elements in another order than the data does"""
+        ks = st["calkeys"]
+        if len(ks) < 2:
+            return []
+        how = rng.choice(["move_end", "move_end", "reorder", "reorder", "pop_set", "data_reorder", "remove_add"])
+        ops = []
+        if how == "move_end":
+            for k in rng.sample(ks[:-1], rng.randint(1, max(1, len(ks) - 1))) if rng.random() < 0.7 else [ks[0]]:
+                ops.append({"op": "cal_move_end", "key": k})
+                st["calkeys"].remove(k)
+                st["calkeys"].append(k)
+        elif how == "reorder":
+            order = list(ks)
+            while order == ks:
+                rng.shuffle(order)
+            if rng.random() < 0.3:
+                order = list(reversed(ks))
+            ops.append({"op": "cal_reorder", "order": order})
+            st["calkeys"][:] = order
+        elif how == "pop_set":  # a calibration is taken out and a new one (a re-fit) is put in: it goes last
+            k = rng.choice(ks[:-1])
+            c = self.gen_cal(rng)
+            ops += [{"op": "cal_pop", "key": k}, {"op": "cal_set", "key": k, "cal": c}]
+            st["calkeys"].remove(k)
+            st["calkeys"].append(k)
+            st["npoints"][k] = len(c["points"])
+            st["custom"][k] = not isinstance(c["weights"], str)
+        elif how == "data_reorder":  # the image is replaced by one with its fields in another order
+            order = list(st["names"])
+            while order == st["names"]:
+                rng.shuffle(order)
+            ops.append({"op": "data_reorder", "order": order})
+            st["names"][:] = order
+        else:  # dict manipulation mixed with the element history: move an entry, remove another element, add it again
+            k = ks[0]
+            ops.append({"op": "cal_move_end", "key": k})
+            st["calkeys"].remove(k)
+            st["calkeys"].append(k)
+            if len(ks) > 2:
+                ops += self.gen_op(rng, st, only="remove")
+            ops += self.gen_op(rng, st, only="add")
+        return ops
+
+    def gen_op(self, rng, st, only=None):
+        """one call (sometimes two that belong together) of a public mutator, valid for the tracked state"""
+        kinds = ["cal_edit", "cal_edit", "cal_set", "info_set", "info_pop", "info_assign", "cfg", "cfg", "cfg", "cfg_assign",
+                 "rename", "add", "remove", "order", "order"]
+        t = core.tok
+        for _ in range(50):
+            k = only or rng.choice(kinds)
+            ks, names = st["calkeys"], st["names"]
+            if k == "order":
+                ops = self.gen_order_ops(rng, st)
+                if ops:
+                    return ops
+            elif k == "cal_set":
+                key = rng.choice(ks)
+                c = self.gen_cal(rng)
+                st["npoints"][key], st["custom"][key] = len(c["points"]), not isinstance(c["weights"], str)
+                return [{"op": "cal_set", "key": key, "cal": c}]
+            elif k == "cal_edit":
+                key = rng.choice(ks)
+                w = rng.choice(["intercept", "gradient", "unit", "rsq", "error", "points", "weighting", "custom"])
+                if w in ("intercept", "gradient"):
+                    return [{"op": "cal_edit", "key": key, "edit": {"what": w, "value": rnd_float_tok(rng)}}]
+                if w == "unit":
+                    return [{"op": "cal_edit", "key": key, "edit": {"what": w, "value": rng.choice(["", "ppm", "µg/g", "cps", rnd_str(rng, 0, 32, odd=0.3)])}}]
+                if w in ("rsq", "error"):
+                    return [{"op": "cal_edit", "key": key, "edit": {"what": w, "value": None if rng.random() < 0.3 else rnd_float_tok(rng)}}]
+                if w == "weighting":
+                    st["custom"][key] = False
+                    return [{"op": "cal_edit", "key": key, "edit": {"what": w, "value": rng.choice(BUILTIN)}}]
+                c = self.gen_cal(rng)  # new points; custom weights have to follow
+                n = len(c["points"])
+                if w == "custom" or st["custom"][key]:
+                    name = rng.choice(["custom", "w", "1/σ²", rnd_str(rng, 1, 32, odd=0.3)])
+                    name = "custom" if name in BUILTIN else name
+                    ops = [] if (w == "custom" and st["npoints"][key] == n) else [{"op": "cal_edit", "key": key, "edit": {"what": "points", "value": c["points"]}}]
+                    if ops:
+                        st["npoints"][key] = n
+                    st["custom"][key] = True
+                    return ops + [{"op": "cal_edit", "key": key, "edit": {"what": "custom", "name": name,
+                                   "value": [rnd_float_tok(rng, allow_nan=True) for _ in range(st["npoints"][key])]}}]
+                st["npoints"][key] = n
+                return [{"op": "cal_edit", "key": key, "edit": {"what": "points", "value": c["points"]}}]
+            elif k == "info_set":
+                key = rng.choice(st["info"]) if st["info"] and rng.random() < 0.4 else rng.choice(["Name", "Operator", "a\tb", "k", "", rnd_str(rng, 0, 6, odd=0.3)])
+                if key not in st["info"]:
+                    st["info"].append(key)
+                return [{"op": "info_set", "key": key, "value": rng.choice(["", "v", "x\ty"]) if rng.random() < 0.3 else rnd_str(rng, 0, 10, odd=0.3)}]
+            elif k == "info_pop" and st["info"]:
+                key = rng.choice(st["info"])
+                st["info"].remove(key)
+                return [{"op": "info_pop", "key": key}]
+            elif k == "info_assign":
+                items = self.gen_info(rng)
+                st["info"] = list(dict.fromkeys(a for a, _ in items))
+                return [{"op": "info_assign", "items": items}]
+            elif k == "cfg":
+                cls = st["cfg"]
+                w = rng.choice({"raster": ["spotsize", "speed", "scantime"], "spot": ["spotsize", "spotsize_y"],
+                                "srr": ["spotsize", "speed", "scantime", "warmup", "warmup", "offsets", "offsets", "equal_offsets",
+                                        "equal_offsets", "equal_offsets"]}[cls])
+                if w == "warmup":
+                    s_ = st["scantime"]
+                    v = rng.randint(0, 200) * s_ if rng.random() < 0.6 else rng.uniform(0, 60.0)
+                    return [{"op": "cfg", "what": w, "value": t(v)}]
+                if w == "offsets":
+                    offs = []
+                    for _ in range(rng.choice([1, 2, 2, 3, 4])):
+                        den = rng.choice([1, 2, 2, 3, 4, 5, 6, 8, 12])
+                        offs.append([rng.randint(0, den), den])
+                    return [{"op": "cfg", "what": w, "value": offs, "as_array": rng.random() < 0.5}]
+                if w == "equal_offsets":
+                    return [{"op": "cfg", "what": w, "value": rng.choice([1, 2, 2, 3, 3, 4, 5, 8])}]
+                v = rnd_pos_float(rng)
+                if w == "scantime" and cls == "srr":
+                    st["scantime"] = v
+                return [{"op": "cfg", "what": w, "value": t(v)}]
+            elif k == "cfg_assign":
+                cls = "srr" if st["cfg"] == "srr" else rng.choice(["laser", "spot"])
+                cfg = self.gen_config(rng, cls, st["nlayers"])
+                st["cfg"] = cfg["class"]
+                st["scantime"] = tokf(cfg["scantime"]) if cfg["class"] == "srr" else None
+                return [{"op": "cfg_assign", "config": cfg}]
+            elif k == "rename":
+                m = rng.randint(1, min(3, len(names)))
+                old = rng.sample(names, m)
+                if m >= 2 and rng.random() < 0.4:   # a swap / rotation of names
+                    new = old[1:] + old[:1]
+                else:
+                    used = set(names)
+                    new = []
+                    for _ in old:
+                        n = self.gen_name(rng, used).replace("\x00", "0")
+                        new.append(n)
+                if len(set(new) | (set(names) - set(old))) != len(names):
+                    continue
+                ren = dict(zip(old, new))
+                st["names"][:] = [ren.get(n, n) for n in names]
+                st["calkeys"][:] = [ren.get(n, n) for n in ks]
+                st["npoints"] = {ren.get(n, n): v for n, v in st["npoints"].items()}
+                st["custom"] = {ren.get(n, n): v for n, v in st["custom"].items()}
+                return [{"op": "rename", "names": [[a, b] for a, b in zip(old, new)]}]
+            elif k == "add" and len(names) < 8:
+                used = set(names) | set(ks)
+                name = self.gen_name(rng, used).replace("\x00", "0")
+                if name in names or name in ks:
+                    continue
+                dtype = rng.choice(DTYPES)
+                if st["cfg"] == "srr" and dtype.startswith(">"):
+                    dtype = "<" + dtype[1:]
+                c = None if rng.random() < 0.3 else self.gen_cal(rng)
+                st["names"].append(name)
+                st["calkeys"].append(name)
+                st["npoints"][name] = 0 if c is None else len(c["points"])
+                st["custom"][name] = c is not None and not isinstance(c["weights"], str)
+                return [{"op": "add", "name": name, "dtype": dtype, "cal": c,
+                         "bits": [self.gen_bits(rng, dtype, st["size"]) for _ in range(st["nlayers"])]}]
+            elif k == "remove" and len(names) > 1:
+                gone = rng.sample(names, rng.randint(1, min(2, len(names) - 1)))
+                for n in gone:
+                    st["names"].remove(n)
+                    st["calkeys"].remove(n)
+                return [{"op": "remove", "names": gone, "as_str": rng.random() < 0.5}]
+            if only:
+                return []
+        return []
+
+    def gen_history(self, rng):
+        """constructor -> (calls) -> save/load -> calls -> save/load [-> go on with the loaded object -> calls -> save/load]"""
+        case = {"kind": "history", **self.gen_laser(rng, empty_cals=rng.random() < 0.1)}
+        if case["cls"] != "srr" and rng.random() < 0.15:
+            case["layout"] = rng.choice(LAYOUTS)
+        self.distinct_cals(rng, case)
+        st = self.track(case)
+        steps = []
+        stems = ["laser", "a b", "x.y", "é中", "1", "other"]
+        cur_path = {"stem": rng.choice(stems), "suffix": ".npz", "as": rng.choice(["path", "str"])}
+
+        def ops(n):
+            for _ in range(n):
+                for o in self.gen_op(rng, st):
+                    steps.append({"step": "op", **o})
+                if rng.random() < 0.25:
+                    steps.append({"step": "read", "what": rng.choice(["to_array", "offsets", "extent", "get", "weights"])})
+
+        def save():
+            nonlocal cur_path
+            if rng.random() < 0.35:   # another file; sometimes a name that np.savez completes with '.npz'
+                cur_path = {"stem": rng.choice(stems), "suffix": rng.choice([".npz", ".npz", "", ".dat", ".npz.npz", ".NPZ"]),
+                            "as": rng.choice(["path", "str"])}
+            steps.append({"step": "save", "path": dict(cur_path)})
+
+        if rng.random() < 0.3:
+            ops(rng.randint(1, 2))
+        save()
+        for _ in range(rng.choice([1, 1, 1, 2])):
+            if rng.random() < 0.3:
+                steps.append({"step": "adopt"})
+                st["calkeys"][:] = list(st["names"])   # a loaded laser has its calibrations in element order
+                st["info"] = [k.replace("\t", " ") for k in st["info"] if k != "File Path"]
+                st["info"] = list(dict.fromkeys(st["info"] + ["Name", "File Path", "File Version"]))
+            ops(rng.choice([1, 1, 2, 3, 4]))
+            save()
+        case["steps"] = steps
+        return case
+
     def gen_laser(self, rng, cls=None, old_layout=False, empty_cals=False):
         cls = cls or rng.choice(["laser", "laser", "spot", "srr", "srr"])
         shape = [rng.choice([1, 1, 2, 3, 5]), rng.choice([1, 2, 3, 4, 7])]
@@ -519,11 +952,20 @@ class C01(Prop):
                     "elements": [{"name": "A", "dtype": "<f8", "bits": [[t(1.5)], [t(2.5)]]}], "cals": [], "config": cfg,
                     "info": [], "stem": "laser", "chain": rng.choice([1, 2, 3])}
         r = rng.random()
+        if 0.4 <= r < 0.6:
+            return self.gen_history(rng)
         kind = "layouts" if r < 0.3 else "crossclass" if r < 0.4 else "roundtrip"
         case = {"kind": kind, **self.gen_laser(rng, old_layout=(kind == "layouts"), empty_cals=rng.random() < 0.15)}
         case["stem"] = rng.choice(["laser", "a b", "x.y", "é中", "1"])
         if kind != "crossclass" and rng.random() < 0.02:  # a laser without elements: save raises, the old layouts load
             case["elements"], case["cals"] = [], []
+        if len(case["elements"]) >= 2 and rng.random() < 0.35:
+            # the calibration dict lists the elements in another order than the data (entries popped and re-inserted, the
+            # dict reassigned, the image replaced by one with reordered fields), every element with its own calibration
+            self.distinct_cals(rng, case)
+            case["pre"] = self.gen_order_ops(rng, self.track(case))
+        if case["cls"] != "srr" and rng.random() < 0.15:
+            case["layout"] = rng.choice(LAYOUTS[3:])
         if kind == "crossclass":
             # the header of the saved file names another class (or an unknown one) than the config member is of
             case["as_cls"] = rng.choice(CLASS_NAMES)
@@ -743,7 +1185,43 @@ class C01(Prop):
             f.add(f"srr:layers={len(case['shapes'])}")
         if not case["elements"]:
             f.add("elements:none")
-        if case["kind"] == "roundtrip":
+        if case.get("layout", "C") != "C":
+            f.add("layout:" + case["layout"])
+        if case.get("pre"):
+            f.add("calorder")
+            f.add("calorder:kind:" + case["kind"])
+            f.add("calorder:cls:" + case["cls"])
+            for op in case["pre"]:
+                f.add("calorder:" + op["op"])
+        if case["kind"] == "history":
+            ops_seen = False
+            saves = 0
+            prev = None
+            for st in case["steps"]:
+                if st["step"] == "op":
+                    o = st["op"]
+                    f.add("hist:op:" + o + (":" + st["what"] if o == "cfg" else ":" + st["edit"]["what"] if o == "cal_edit" else ""))
+                    if saves == 0:
+                        f.add("hist:op-before-first-save")
+                    else:
+                        f.add("hist:op-after-save")
+                    ops_seen = True
+                elif st["step"] == "read":
+                    f.add("hist:read:" + st["what"])
+                elif st["step"] == "adopt":
+                    f.add("hist:adopt")
+                else:
+                    saves += 1
+                    pth = st["path"]
+                    f.add("hist:path:suffix=" + repr(pth["suffix"]))
+                    f.add("hist:path:as-" + pth["as"])
+                    if prev is not None:
+                        f.add("hist:path:same-file" if (pth["stem"], pth["suffix"]) == prev else "hist:path:other-file")
+                    prev = (pth["stem"], pth["suffix"])
+            f.add(f"hist:saves={saves}")
+            if not ops_seen:
+                f.add("hist:no-op")
+        elif case["kind"] == "roundtrip":
             f.add(f"chain:{case['chain']}")
         elif case["kind"] == "crossclass":
             f.add(f"crossclass:{cfg['class']}->{case['as_cls']!r}")
@@ -765,14 +1243,28 @@ class C01(Prop):
         from pewlib.io import npz
 
         tmp = ctx.tmpdir()
+        if case["kind"] == "history":
+            return self.evaluate_history(case, ctx, tmp)
         path = tmp / (case["stem"] + ".npz")
         with warnings.catch_warnings():
             warnings.simplefilter("ignore")
             obj = build_laser(case)
-        desc = desc_laser(obj, True)
+        desc = desc_laser(obj, True)      # the object as constructed; the operations of `pre` are applied by the model
         pinfo = {"stem": cps(path.stem), "resolved": cps(str(path.resolve()))}
         ver = cps(dist_version("pewlib"))
         feats = self.features(case, obj)
+        pre = case.get("pre", [])
+        with warnings.catch_warnings():
+            warnings.simplefilter("ignore")
+            try:
+                for op in pre:
+                    apply_op_real(obj, op)
+            except core.InternalError:
+                raise
+            except Exception as e:  # noqa: BLE001  a call that is not valid for this object (a shrunk case): nothing to judge
+                return outcome(None, None, None, spec_ok=True, model_ok=True, hyp=False, undetermined=True,
+                               features={"excluded:operation-raises"}, note=type(e).__name__)
+        pre_enc = [enc_op(op) for op in pre]
 
         if case["kind"] == "roundtrip":
             def run():
@@ -782,8 +1274,12 @@ class C01(Prop):
                     cur = npz.load(path)
                 return cur
 
+            rep = ctx.driver.call("c01.roundtrip", laser=desc, path=pinfo, version=ver, time=cps("0.0"), chain=case["chain"],
+                                  pre=pre_enc)
+            if rep.get("pre_failed"):
+                return outcome(None, None, None, spec_ok=True, model_ok=True, hyp=False, undetermined=True,
+                               features={"excluded:operation-not-modelled"})
             impl = observe(run, obj)
-            rep = ctx.driver.call("c01.roundtrip", laser=desc, path=pinfo, version=ver, time=cps("0.0"), chain=case["chain"])
             model, spec = canon_reply(rep["model"]), canon_reply(rep["spec"])
         elif case["kind"] == "crossclass":
             def run_cross():
@@ -791,7 +1287,11 @@ class C01(Prop):
                 gen_npz.rewrite_header_class(path, case["as_cls"])
                 return npz.load(path)
 
-            rep = ctx.driver.call("c01.crossclass", laser=desc, path=pinfo, version=ver, time=cps("0.0"), cls=cps(case["as_cls"]))
+            rep = ctx.driver.call("c01.crossclass", laser=desc, path=pinfo, version=ver, time=cps("0.0"), cls=cps(case["as_cls"]),
+                                  pre=pre_enc)
+            if rep.get("pre_failed"):
+                return outcome(None, None, None, spec_ok=True, model_ok=True, hyp=False, undetermined=True,
+                               features={"excluded:operation-not-modelled"})
             model = canon_reply(rep["model"])
             if model.get("raises") == "Unmodelled":  # the loaded object has no description in the model's terms
                 return outcome(None, model, None, spec_ok=True, model_ok=True, hyp=False, undetermined=True,
@@ -812,10 +1312,13 @@ class C01(Prop):
                 npz.save(path, obj)
                 return npz.load(path)
 
+            rep = ctx.driver.call("c01.layouts", laser=desc, path=pinfo, version=ver, time=cps("0.0"),
+                                  v06=cps(case["v06"]), v07=cps(case["v07"]), legacy_class=bool(case["legacy_class"]), pre=pre_enc)
+            if rep.get("pre_failed"):
+                return outcome(None, None, None, spec_ok=True, model_ok=True, hyp=False, undetermined=True,
+                               features={"excluded:operation-not-modelled"})
             impl = {"v06": observe(run_old("0.6", case["v06"]), obj), "v07": observe(run_old("0.7", case["v07"]), obj),
                     "v08": observe(run_new, obj)}
-            rep = ctx.driver.call("c01.layouts", laser=desc, path=pinfo, version=ver, time=cps("0.0"),
-                                  v06=cps(case["v06"]), v07=cps(case["v07"]), legacy_class=bool(case["legacy_class"]))
             model = {k: canon_reply(v) for k, v in rep["model"].items()}
             spec = {k: canon_reply(v) for k, v in rep["spec"].items()}
         note = ""
@@ -823,7 +1326,7 @@ class C01(Prop):
             note = impl.get("msg", "")
         impl_c = {k: strip_msg(v) for k, v in impl.items()} if case["kind"] == "layouts" else strip_msg(impl)
         hyp = bool(rep["hyp"])
-        if case["cls"] == "srr" and any(e["dtype"].startswith(">") for e in case["elements"]):
+        if case["cls"] == "srr" and self.swapped_fields(case):
             hyp = False
         excluded = (not hyp) and not case.get("expect_known")
         if excluded:
@@ -832,13 +1335,110 @@ class C01(Prop):
             return outcome(impl_c, model, None, spec_ok=True, hyp=False, features=feats, note=note)
         return outcome(impl_c, model, spec, hyp=hyp, features=feats, note=note)
 
+    @staticmethod
+    def swapped_fields(case):
+        """does an element (of the constructor call or added later) have a non-native byte order?"""
+        dts = [e["dtype"] for e in case["elements"]]
+        for st in list(case.get("pre", [])) + [x for x in case.get("steps", []) if x.get("step") == "op"]:
+            if st.get("op") == "add":
+                dts.append(st["dtype"])
+        return any(d.startswith(">") for d in dts)
+
+    @staticmethod
+    def paths_of(tmp, pth):
+        """the argument handed to `npz.save` and the file that call writes (`np.savez` completes a name that does not
+        end in '.npz')"""
+        from pathlib import Path
+
+        name = pth["stem"] + pth["suffix"]
+        arg = tmp / name
+        written = arg if name.endswith(".npz") else Path(str(arg) + ".npz")
+        return (str(arg) if pth["as"] == "str" else arg), (str(written) if pth["as"] == "str" else written), written
+
+    def evaluate_history(self, case, ctx, tmp):
+        from pewlib.io import npz
+
+        with warnings.catch_warnings():
+            warnings.simplefilter("ignore")
+            obj = build_laser(case)
+        els = case["elements"]
+        layers = list(obj.data) if case["cls"] == "srr" else [obj.data]
+        feats = self.features(case, obj)
+        steps_enc = []
+        for st in case["steps"]:
+            if st["step"] == "op":
+                steps_enc.append({"step": "op", **enc_op(st)})
+            elif st["step"] == "save":
+                _, _, written = self.paths_of(tmp, st["path"])
+                steps_enc.append({"step": "save", "path": {"stem": cps(written.stem), "resolved": cps(str(written.resolve()))}})
+            elif st["step"] == "adopt":
+                steps_enc.append({"step": "adopt"})
+        # the state of the object is tracked by the model from the constructor arguments and the calls; nothing is read
+        # back from the pewlib object
+        rep = ctx.driver.call(
+            "c01.history", kind="srr" if case["cls"] == "srr" else "laser", fields=desc_fields(layers[0]),
+            layers=[desc_layer(a) for a in layers], cal=[[cps(els[i]["name"]), enc_cal(c)] for i, c in case["cals"]],
+            config=enc_cfg_args(case["config"]), info=[[cps(k), cps(v)] for k, v in case["info"]],
+            version=cps(dist_version("pewlib")), time=cps("0.0"), steps=steps_enc)
+        skip = lambda why: outcome(None, None, None, spec_ok=True, model_ok=True, hyp=False, undetermined=True,  # noqa: E731
+                                   features={"excluded:" + why})
+        if rep["ctor"] != "ok" or rep["op_failed"]:
+            return skip("operation-not-modelled")
+        if not rep["determined"]:
+            return skip("warmup-at-rounding-tie")
+
+        impl = []
+        cur, last, op_error = obj, None, None
+        with warnings.catch_warnings():
+            warnings.simplefilter("ignore")
+            for st in case["steps"]:
+                if st["step"] == "op":
+                    try:
+                        apply_op_real(cur, st)
+                    except core.InternalError:
+                        raise
+                    except Exception as e:  # noqa: BLE001
+                        op_error = type(e).__name__
+                        break
+                elif st["step"] == "read":
+                    read_real(cur, st["what"])
+                elif st["step"] == "adopt":
+                    if last is None:
+                        op_error = "adopt-before-save"
+                        break
+                    cur = last
+                else:
+                    arg, load_arg, _ = self.paths_of(tmp, st["path"])
+                    try:
+                        npz.save(arg, cur)
+                        last = npz.load(load_arg)
+                    except Exception as e:  # noqa: BLE001
+                        impl.append({"raises": type(e).__name__})
+                        break
+                    d = desc_laser(last, False)
+                    d["same_container"] = type(last.data) is type(cur.data)
+                    impl.append({"ok": d})
+        if op_error is not None:   # a call that is not valid for this object (a shrunk case): nothing to judge
+            return skip("operation-raises")
+        model = [canon_reply(r) for r in rep["model"]]
+        oks = [bool(b) for b in rep["oks"]]
+        if case["cls"] == "srr" and self.swapped_fields(case):
+            oks = [False] * len(oks)
+        hyp = bool(oks) and all(oks) and len(oks) == len(rep["spec"])
+        spec = [canon_reply(r) if (i < len(oks) and oks[i]) else None for i, r in enumerate(rep["spec"])]
+        # every load is judged against the specification of the state the object had when it was saved
+        spec_ok = all(sp is None or (i < len(impl) and core.canon(impl[i]) == core.canon(sp)) for i, sp in enumerate(spec))
+        if not hyp:
+            feats = set(feats) | {"excluded:" + str(case.get("excluded", "hypothesis"))}
+        return outcome(impl, model, spec, spec_ok=spec_ok, hyp=hyp, features=feats)
+
     # ------------------------------------------------------------------ known findings
     def known(self, case, out):
         if case.get("cls") == "srr" and len({tuple(s) for s in case["shapes"]}) > 1:
             imp = out["impl"]
             if isinstance(imp, dict) and imp.get("raises") == "ValueError":
                 return "C01-srr-unequal-layers-unsaveable"
-        if case.get("cls") == "srr" and any(e["dtype"].startswith(">") for e in case["elements"]):
+        if case.get("cls") == "srr" and self.swapped_fields(case):
             return "C01-srr-byteorder"
         nul = any(e["name"].endswith("\x00") for e in case["elements"])
         for _, c in case["cals"]:
